@@ -27,6 +27,7 @@ func runC05(c *Ctx) {
 	const r1 = "C05.R1 removed from realm, dealer and broker before the peer is closed"
 	ruleSessionRemoval(c, r1)
 	ruleShutdownFlag(c, r1)
+	ruleEndSessionGoodbye(c, r1)
 	c.R.Floor(r1, 15)
 
 	const r2 = "C05.R2 call recorded in all three tables together"
@@ -136,7 +137,8 @@ func runC05(c *Ctx) {
 	} else {
 		c.Has(r6, ol, "each testament of a scope is published under its own topic", `^store:new\(wamp\.Publish\)\.&Topic=&local:testaments\.(detached|destroyed)\.&\[.*\]\.topic$`, 2)
 	}
-	c.R.Floor(r6, 9)
+	ruleTestamentBuckets(c, r6)
+	c.R.Floor(r6, 13)
 }
 
 // ruleCallRecording: a call is entered in calls, invocations and invocationByCall
